@@ -34,7 +34,7 @@ Definition zlen {A} (l : list A) : Z := Z.of_nat (length l).
 
 Record vg := mkvg { g_name : bytes; g_class : bytes; g_members : list pair;
                    g_w : bool (* writable; false while not attached *) }.
-Record vs := mkvs { s_name : bytes; s_class : bytes }.
+Record vs := mkvs { s_name : bytes; s_class : bytes; s_fields : list bytes }.
 
 (* ---- tables keyed by reference number, kept in ascending key order -------------------------------- *)
 Fixpoint tget {A} (k : Z) (t : list (Z * A)) : option A :=
@@ -75,7 +75,7 @@ Inductive op :=
 | OInsertVg (h h2 : Z) | OInsertVs (h h2 : Z)
 | ODelTagRef (h tag ref : Z)
 | OVDelete (ref : Z) | OVSDelete (ref : Z)
-| OVsNew (ref : Z) (name cls : bytes)
+| OVsNew (ref : Z) (name cls : bytes) (fields : list bytes)
 | OVsAttach (h ref : Z) | OVsDetach (h : Z)
 | ONTagRefs (h : Z) | OGetTagRefs (h n : Z) | OGetTagRef (h i : Z) | OInqTagRef (h tag ref : Z) | ONRefs (h tag : Z)
 | OGetName (h : Z) | OGetClass (h : Z) | OInquire (h : Z) | OQueryRef (h : Z)
@@ -84,6 +84,11 @@ Inductive op :=
 | OGetId (ref : Z) | OVSGetId (ref : Z) | OIter | OVSIter
 | OFind (s : bytes) | OFindClass (s : bytes) | OVSFind (s : bytes) | OVSFindClass (s : bytes)
 | OGetVgroupsF (start n : Z) | OGetVgroupsG (h start n : Z)
+| OGetVdatasF (q : option bytes) (start n : Z)          (* VSgetvdatas / VSofclass on the file id; n = 0: count only *)
+| OGetVdatasG (h : Z) (q : option bytes) (start n : Z)  (* ... on a vgroup id *)
+| OVHMakeGroup (ref : Z) (name cls : option bytes) (l : list pair)     (* VHmakegroup; [ref] chosen by the library *)
+| OVentries (ref : Z) | OQueryTag (h : Z) | OGisInternal (h : Z) | OFlocate (h : Z) (field : bytes)
+| OCountVgroupsF (start : Z) | OCountVgroupsG (h start : Z)            (* Vgetvgroups with a NULL array *)
 (* observed on the implementation model only *)
 | OGetNext (h id : Z) | OMsize (h : Z) | ORawVg (ref : Z) | OPutRaw (ref : Z) (b : bytes).
 
@@ -117,6 +122,39 @@ Definition internal_class (c : bytes) : bool := existsb (fun p => is_prefix p c)
 Fixpoint find_first {A} (p : A -> bool) (t : list (Z * A)) : Z :=
   match t with [] => 0 | (k, v) :: r => if p v then k else find_first p r end.
 Definition slice (start n : Z) (l : list Z) : list Z := firstn (Z.to_nat n) (skipn (Z.to_nat start) l).
+(** the answer of the Vgetvgroups / VSgetvdatas family on the list [u] of qualifying objects: from position [start],
+    at most [n] of them; [n] = 0 asks for the count only *)
+Definition enum_answer (s : state) (u : list Z) (start n : Z) : state * res :=
+  if zlen u <? start then (s, RFail)
+  else if n =? 0 then (s, ROk [zlen u - start] None)
+  else let l := slice start n u in (s, ROk (zlen l :: l) None).
+(** does a vdata of class [c] answer the query [q]?  [None] asks for the user-created vdatas (no class, or a class
+    that is not one of the library's); a class query starting with the chunk-table prefix matches by that prefix *)
+Definition HDF_CHK_TBL_CLASS : bytes := _HDF_CHK_TBL_CLASS.
+Definition internal_vs_class (c : bytes) : bool := existsb (fun p => is_prefix p c) HDF_INTERNAL_VDS.
+Definition vs_class_match (q : option bytes) (c : bytes) : bool :=
+  match c, q with
+  | [], None => true
+  | [], Some _ => false
+  | _, None => negb (internal_vs_class c)
+  | _, Some qc => if is_prefix HDF_CHK_TBL_CLASS qc then is_prefix HDF_CHK_TBL_CLASS c else bytes_eqb qc c
+  end.
+Definition vs_matches (q : option bytes) (r : Z) (t : list (Z * vs)) : bool :=
+  match tget r t with Some v => vs_class_match q (s_class v) | None => false end.
+Definition opt_ok (o : option bytes) : bool := match o with Some b => name_ok b && (zlen b <=? 65535) | None => true end.
+Definition opt_val (o : option bytes) : bytes := match o with Some b => b | None => [] end.
+(** Vflocate: the first vdata member that has the field; a member naming a vdata that does not exist ends the search *)
+Fixpoint flocate (f : bytes) (t : list (Z * vs)) (l : list pair) : option Z :=
+  match l with
+  | [] => None
+  | (tg, r) :: l' =>
+      if tg =? DFTAG_VH then
+        match tget r t with
+        | None => None
+        | Some v => if existsb (bytes_eqb f) (s_fields v) then Some r else flocate f t l'
+        end
+      else flocate f t l'
+  end.
 
 (* ---- one operation -------------------------------------------------------------------------------- *)
 Definition ok0 (s : state) : state * res := (s, ROk [] None).
@@ -205,11 +243,11 @@ Definition step (s : state) (o : op) : state * res :=
       if negb (u16 r) then (s, RUnspec)
       else match tget r (vss s) with None => (s, RFail) | Some _ =>
         if vs_attached r s then (s, RUnspec) else ok0 (mkst (vgs s) (tdel r (vss s)) (hg s) (hs s)) end
-  | OVsNew r n c =>
+  | OVsNew r n c fl =>
       if negb ((1 <=? r) && (r <=? 65535)) then (s, RFail)
       else match tget r (vss s) with Some _ => (s, RFail) | None =>
         if name_ok n && name_ok c
-        then (mkst (vgs s) (tins r (mkvs n c) (vss s)) (hg s) (hs s), ROk [r] None) else (s, RUnspec) end
+        then (mkst (vgs s) (tins r (mkvs n c fl) (vss s)) (hg s) (hs s), ROk [r] None) else (s, RUnspec) end
   | OVsAttach h r =>
       match tget h (hs s) with Some _ => (s, RUnspec) | None =>
         match tget r (vss s) with None => (s, RFail) | Some _ =>
@@ -261,6 +299,42 @@ Definition step (s : state) (o : op) : state * res :=
                                       | Some g2 => negb (internal_class (g_class g2)) | None => false end)
                                     (g_members g)) in
            if zlen u <? start then (s, RFail) else let l := slice start n u in okv s (zlen l :: l))
+  | OGetVdatasF q start n =>
+      if (start <? 0) || (n <? 0) then (s, RUnspec)
+      else enum_answer s (keys (filter (fun e => vs_class_match q (s_class (snd e))) (vss s))) start n
+  | OGetVdatasG h q start n => with_h s h (fun _ g =>
+      if (start <? 0) || (n <? 0) then (s, RUnspec)
+      else enum_answer s (map snd (filter (fun p => (fst p =? DFTAG_VH) && vs_matches q (snd p) (vss s))
+                                           (g_members g))) start n)
+  | OVHMakeGroup r n c l =>
+      if negb ((1 <=? r) && (r <=? 65535)) then (s, RFail)
+      else match tget r (vgs s) with Some _ => (s, RFail) | None =>
+        if opt_ok n && opt_ok c && forallb (fun p => u16 (fst p) && u16 (snd p)) l && (zlen l <=? 65535)
+        then (mkst (tins r (mkvg (opt_val n) (opt_val c) l false) (vgs s)) (vss s) (hg s) (hs s), ROk [r] None)
+        else (s, RUnspec) end
+  | OVentries r =>
+      if r <? 1 then (s, RFail)
+      else if negb (u16 r) then (s, RUnspec)
+      else match tget r (vgs s) with Some g => okv s [zlen (g_members g)] | None => (s, RFail) end
+  | OQueryTag h => with_h s h (fun _ _ => okv s [DFTAG_VG])
+  | OGisInternal h => with_h s h (fun _ g =>
+      match g_class g with
+      | [] => if is_prefix GR_NAME (g_name g) then (s, RNoSpec) else okv s [0]
+      | c => okv s [if internal_class c then 1 else 0]
+      end)
+  | OFlocate h f => with_h s h (fun _ g =>
+      match f with [] => (s, RUnspec) | _ =>
+        match flocate f (vss s) (g_members g) with Some r => okv s [r] | None => (s, RFail) end end)
+  | OCountVgroupsF start =>
+      if start <? 0 then (s, RUnspec) else if 0 <? start then (s, RNoSpec)
+      else okv s [zlen (filter (fun e => negb (internal_class (g_class (snd e)))) (vgs s))]
+  | OCountVgroupsG h start => with_h s h (fun _ g =>
+      if start <? 0 then (s, RUnspec)
+      else let u := filter (fun p => (fst p =? DFTAG_VG) &&
+                                      match tget (snd p) (vgs s) with
+                                      | Some g2 => negb (internal_class (g_class g2)) | None => false end)
+                           (g_members g) in
+           if zlen u <? start then (s, RFail) else okv s [zlen u - start])
   | OGetNext _ _ | OMsize _ | ORawVg _ => (s, RNoSpec)
   | OPutRaw _ _ => (s, RUnspec)
   end.
